@@ -29,6 +29,7 @@ pub struct C16;
 pub fn profile(tier: Tier) -> Profile {
     let mut p = Profile::base(if tier == Tier::Quick { 30 } else { 80 });
     p.w_probe = 8;
+    p.big_batches = true;
     p.w_reopen = 1;
     p.w_read = 1;
     p.small_cache = true;
